@@ -6,19 +6,24 @@ prop("C19",
      harness="c19_fourier",
      runs={
          "quick": [dict(flavour="asan", cases=5000), dict(flavour="rel", cases=25000)],
-         "thorough": [dict(flavour="asan", cases=100000), dict(flavour="rel", cases=600000)],
+         # thorough sized for about 30 min at 6 jobs (asan ~35 ms/case, rel ~3 ms/case per shard-second)
+         "thorough": [dict(flavour="asan", cases=25000), dict(flavour="rel", cases=250000)],
      },
-     min_nontrivial={"quick": 10000, "thorough": 250000},
+     min_nontrivial={"quick": 10000, "thorough": 150000},
      min_obs={"quick": dict(_LENS, dft_checks_1d=2000, dft_checks_2d=2000, dft_checks_3d=2000, dft_real_checks=1500,
                             dft_impulse_checks=300, dft_parseval_checks=3000,
                             filter_vs_convolution_1d=1000, filter_vs_convolution_2d=1000, filter_vs_convolution_3d=1000,
+                            conv_direct_checks_2d=500, conv_direct_checks_3d=500, conv_kernel_outer_range_0_0=100,
                             dftfilter_kernel_not_from_0=1000, conv_bc_constant_checks=500, symconv_checks=500,
-                            separable_order_checks=500, sepconv_imagefilter_checks=100,
+                            separable_order_checks=500, sepconv_imagefilter_checks=100, sepconv_imagefilter_right_heavy_ranges=100,
                             gaussian_mean_checks=1000, gaussian_impulse_checks=1000, gaussian_imagefilter_cases=200,
-                            metz_checks=1000, metz_sum_checks=500),
+                            gaussian_truncated_by_max_kernel_size=500,
+                            metz_checks=1000, metz_sum_checks=500, metz_mean_checks=500),
               "thorough": dict({k: 600 for k in _LENS}, dft_checks_1d=50000, dft_checks_2d=50000, dft_checks_3d=50000,
                                filter_vs_convolution_1d=25000, filter_vs_convolution_2d=25000, filter_vs_convolution_3d=25000,
-                               separable_order_checks=12000, gaussian_mean_checks=25000, metz_checks=25000)},
+                               conv_kernel_outer_range_0_0=1000, sepconv_imagefilter_right_heavy_ranges=1000,
+                               separable_order_checks=12000, gaussian_mean_checks=15000, gaussian_truncated_by_max_kernel_size=5000,
+                               metz_checks=25000, metz_sum_checks=8000, metz_mean_checks=8000)},
      rule=("case idx%10 selects the clause: 0-3 DFT (1-D: every power-of-two length 2..1024 in turn; 2-D up to 128x128, 3-D up to 32^3 "
            "/ 8192 elements, outer dimensions of length 1 included; random complex / impulse / constant / real-valued data, sign +-1): "
            "fourier and inverse_fourier vs a naive O(n^2) float64 DFT, inverse(forward), impulse -> constant modulus, Parseval, "
@@ -30,12 +35,13 @@ prop("C19",
            "random 1-D filters (zero/constant BC convolution, symmetric kernel, padded DFT) vs successive 1-D operators in STIR's and "
            "in a random axis order, or SeparableConvolutionImageFilter on an image; 8 SeparableGaussianArrayFilter / "
            "SeparableGaussianImageFilter (random FWHM, voxel sizes, max kernel sizes): impulse-response sum == 1 and constant data "
-           "preserved wherever the kernel support lies in the constant box; 9 SeparableMetzArrayFilter at power 0: 3-D kernel sum and "
-           "response to constant data.  non-trivial = data length >= 4, data not constant, kernel overlaps the data (filters: at least "
+           "preserved wherever the kernel support lies in the constant box; 9 SeparableMetzArrayFilter at power 0: 3-D kernel sum == 1 when no "
+           "dimension is cut by max_kernel_size (a cut kernel is documented to be zeroed outside the limit, not renormalised: its sum is "
+           "not judged, counter metz_cut_by_max_kernel_size_sum_not_judged), and response to constant data == constant x kernel sum.  non-trivial = data length >= 4, data not constant, kernel overlaps the data (filters: at least "
            "one non-identity axis and a non-empty interior); distinct = distinct case descriptor"),
      technique=("runtime monitoring against independent float64 references (naive DFT, direct convolution, successive 1-D operators with a "
                 "propagated rigorous float32 error bound), under ASan/UBSan/asserts and in the release build"),
-     level_text=("tens of thousands (quick) / 700 000 (thorough) generated transforms and filter applications on the real classes, every "
+     level_text=("tens of thousands (quick) / 275 000 (thorough) generated transforms and filter applications on the real classes, every "
                  "power-of-two length 2..1024 in 1-D and 1-3 dimensions, kernels with arbitrary (negative, non-centred, wrapped) index "
                  "ranges, all implemented boundary conditions; every output element is compared with a float64 reference inside a computed "
                  "band (normwise FFT bound 8(log2 N+s) eps32 ||.||, 8(n+2) eps32 sum|terms| for direct sums) that the unchanged tree stays "
@@ -48,6 +54,9 @@ prop("C19",
      assumptions=["DFT-filter cases are generated such that all kernel offsets that occur are distinct modulo the padded length "
                   "(no wrap-around), which is the situation the property speaks about; the periodic (aliased) regime is not judged",
                   "SeparableMetzArrayFilter at power 0: |3-D kernel sum - 1| <= 1e-3, the tolerance of STIR's own test_SeparableMetzArrayFilter",
+                  "a Metz kernel shortened by max_kernel_size is, as documented (STIR-UsersGuide, Separable Cartesian Metz, rule iii: 'will set "
+                  "any other values to 0'), not a kernel that sums to one; whether a dimension is cut is decided by comparing the measured "
+                  "half width with that of the same filter built with max_kernel_size -1",
                   "kernel supports of the Gaussian / Metz filters are measured from impulse responses; cases whose support exceeds the "
                   "probe array (Metz half width > 598 voxels) are counted and not judged"],
      )
